@@ -58,4 +58,42 @@ def mulState (m : Mode) (w : Nat) (A : LMat α) (v : List (Row α m)) : List (Ro
   (List.range A.length).map fun r => rowMk m w fun col =>
     sumTo A.length fun c => LMat.get A r c * stateEntry m v c col
 
+
+/-! ### well-formed gate terms, and the reference semantics of a list of placed gates -/
+
+section terms
+variable {P : Type}
+
+mutual
+/-- a gate term whose composite placements have matching arity and distinct in-range qubits
+(composites act on at least one qubit) -/
+def WF : GateTerm P → Prop
+  | .C g => WF g
+  | .Kron g0 g1 => WF g0 ∧ WF g1
+  | .Composite _ n ops => 0 < n ∧ WFOps n ops
+  | .Loop _ _ _ n body => 0 < n ∧ WFOps n body
+  | _ => True
+def WFOps (n : Nat) : OpList P → Prop
+  | .nil => True
+  | .cons g bits rest => WF g ∧ Gate.nrBits g = bits.length ∧ validBits n bits = true ∧ WFOps n rest
+end
+
+mutual
+/-- apply the ops in order to a state of an `N`-qubit register: each op multiplies by the matrix
+`matOf g` embedded on its qubits -/
+def applyOps (matOf : GateTerm P → LMat α) (m : Mode) (w N : Nat) :
+    OpList P → List (Row α m) → List (Row α m)
+  | .nil, v => v
+  | .cons g bits rest, v => applyOps matOf m w N rest (mulState m w (embed N bits (matOf g)) v)
+end
+
+mutual
+/-- the ordered matrix product `E_k ⋯ E_2 E_1 · acc` of the embedded matrices (first op acts first) -/
+def opsMatrix [One α] (matOf : GateTerm P → LMat α) (n : Nat) : OpList P → LMat α → LMat α
+  | .nil, acc => acc
+  | .cons g bits rest, acc => opsMatrix matOf n rest (LMat.mul (embed n bits (matOf g)) acc)
+end
+
+end terms
+
 end Q1t.Spec
